@@ -238,8 +238,11 @@ func checkLDAP(c authCase) error {
 				conn.Send(svc.LDAPCompare(id, "cn=x,dc=example", "cn", "x"))
 			}
 		}
-		if conn.WaitIdle(5*time.Second) == lab.Closed {
+		switch conn.WaitIdle(30 * time.Second) {
+		case lab.Closed:
 			return fmt.Errorf("step %d: server closed the connection", si)
+		case lab.Busy:
+			return fmt.Errorf("inconclusive: no quiescence within 30s at step %d", si)
 		}
 		codes := ldapResultCodes(conn.Output())
 		if len(codes) != before+1 {
@@ -347,8 +350,12 @@ func checkFTP(c authCase) error {
 		before := len(ftpCodes(se.Conn.Output()))
 		lines = append(lines, line)
 		se.Conn.Send([]byte(line + "\r\n"))
-		if se.Conn.WaitIdle(5*time.Second) == lab.Closed {
+		switch se.Conn.WaitIdle(30 * time.Second) {
+		case lab.Closed:
 			return "", fmt.Errorf("server closed the connection after %q", line)
+		case lab.Busy:
+			// the harness's own wait ran out (loaded machine): not a verdict
+			return "", fmt.Errorf("inconclusive: no quiescence within 30s after %q", line)
 		}
 		codes := ftpCodes(se.Conn.Output())
 		if len(codes) < before+1 {
@@ -380,6 +387,11 @@ func checkFTP(c authCase) error {
 				loggedIn = true
 			}
 		} else {
+			if loggedIn && (st.User == "LIST" || st.User == "NLST") {
+				// once logged in these wait for a data connection (bounded, seconds) and answer
+				// twice: they are exercised by C09/C11; here they only probe the gate
+				continue
+			}
 			code, err := send(st.User) // probe command line
 			if err != nil {
 				return err
@@ -515,6 +527,10 @@ func TestAuth(t *testing.T) {
 		if err := check(c); err != nil {
 			if strings.HasPrefix(err.Error(), "infra:") {
 				rt.Fatalf("%v", err)
+			}
+			if strings.HasPrefix(err.Error(), "inconclusive:") {
+				r.Label("inconclusive/harness-wait-expired", 1)
+				return
 			}
 			r.Fail(rt, "TestAuth", c, "%v", err)
 		}
